@@ -235,20 +235,23 @@ def acMatches (pats : List (List Char)) (rest : List Char) : List AcMatch :=
 /-- `AhoCorasick::max_pattern_len` -/
 def maxPatternLen (pats : List (List Char)) : Nat := pats.foldl (fun a p => max a p.length) 0
 
+/-- the body of the loop behind its `break` / `continue` tests: a line statement prefix that is
+    not at the start of its line is skipped, any other match becomes `longest_match` -/
+def acPick (d : Delims) (pre rest : List Char) (best : Found) (m : AcMatch) : Found :=
+  let marker := patternToMarker d m.idx
+  if marker = .lineStmt && !lineStartP ((rest.take m.start).reverse ++ pre) then best
+  else some (m.start, marker, m.len)
+
 /-- the loop of `find_start_marker` over the overlapping matches (`best` = `longest_match`) -/
 def acLoop (d : Delims) (maxLen : Nat) (pre rest : List Char) : Found → List AcMatch → Found
   | best, [] => best
   | best, m :: ms =>
-    let process : Found :=
-      let marker := patternToMarker d m.idx
-      if marker = .lineStmt && !lineStartP ((rest.take m.start).reverse ++ pre) then acLoop d maxLen pre rest best ms
-      else acLoop d maxLen pre rest (some (m.start, marker, m.len)) ms
     match best with
     | some (s, _, _) =>
       if m.stop > s + maxLen then best
       else if m.start > s then acLoop d maxLen pre rest best ms
-      else process
-    | none => process
+      else acLoop d maxLen pre rest (acPick d pre rest best m) ms
+    | none => acLoop d maxLen pre rest (acPick d pre rest best m) ms
 
 /-- the custom-delimiter search: automaton over the validated start delimiters + the loop -/
 def acFind (d : Delims) : FindStart := fun pre rest =>
